@@ -1245,13 +1245,14 @@ def main(chk: Check):
             why = "raised" if res[0] == "raise" else oracle_out(wsc, 0, res[1])
             chk.known_replay(fid, still_fails=bool(why), detail=str(why))
         n_fail = reported = 0
+        xstats = new_stats()       # the measured hypotheses of the evidence are those of the main scenes only
         for _ in range(n_excl):
             sc = gen(rng)
             chk.tag(f"excluded_region_scene:{fid}")
             if fid == "F-C03b":
                 # the model follows the tree under test also here: NaN scores, sentinel costs, dropped matches
                 c = impl_phase(chk, sc)
-                fails = compare_phase(chk, c, run_driver("C03.lean", c["lines"]), "excluded", stats, do_case=False)
+                fails = compare_phase(chk, c, run_driver("C03.lean", c["lines"]), "excluded", xstats, do_case=False)
                 why = fails[0][1] if fails else None
             else:
                 res, _ = run_impl(sc)
@@ -1262,7 +1263,7 @@ def main(chk: Check):
                     reported += 1
                     chk.fail(f"C03 fails on BottomUpInferenceModel.forward (excluded region: {what}): {why}",
                              {"scene": frac_json(sc), "sample": 0}, why, signatures(sc, 0))
-        excl[fid] = {"scenes": n_excl, "oracle_failures": n_fail}
+        excl[fid] = {"scenes": n_excl, "oracle_failures": n_fail, "nan_scores_on_both_sides": xstats["nan_scores"]}
     chk.extra["excluded_region_cases"] = {**excl, "note": "search, not proof coverage: scenes outside H2 "
                                           "(exchange clause violated / a NaN candidate)"}
 
@@ -1308,8 +1309,9 @@ if __name__ == "__main__":
             "facts about Gaussian/PAF fields: NOT proved, measured per scene on the real tensors (see measured_hypotheses)",
             "scipy linear_sum_assignment: parameter `lsa` of the model (its recorded answers); ONE contract, C08's LsaSpec "
             "(minimum-cost saturating matching; LsaStable is derived from it in Lean), validated by brute force on every call",
-            "C08 (tree_conns, assign_classes_eq_components, grouping_total_partial, min_score_filtered) and C17 (toposort_perm) "
-            "theorems are imported; their own correspondence checks are harness/c08.py and harness/c17.py",
+            "the C08 / C17 pipeline theorems used (tree_conns, assign_classes_eq_components, grouping_total(_partial), "
+            "min_score_filtered, rows, toposort_perm) are restated in Lemmas/BottomUpDeps.lean from the C08/C17 lemma files; the "
+            "Grouping / Toposort models they speak about are tied to the code by harness/c08.py and harness/c17.py",
             "float32/float64 arithmetic: line subscripts reproduced bit-exactly by the Float run of the model; scores within 2e-5",
             "stub network = the repo's own generate_multiconfmaps / generate_pafs on the scaled scene; recording wrappers around "
             "find_local_peaks, make_line_subs, linear_sum_assignment (harness side)",
